@@ -35,7 +35,8 @@ USER = ["ulib", "ulib_extra", "ulib2", "upkg", "upkgx", "upkg.sub", "upkg2"]
 MENU = BUILTIN + USER
 USER_SRC = {
     "ulib.py": "from mpilot.commands import Command\n\nclass Alpha(Command):\n    def execute(self, **kw):\n        return 'ulib.Alpha'\n\nclass Beta(Command):\n    def execute(self, **kw):\n        return 'ulib.Beta'\n",
-    "ulib_extra.py": "from mpilot.commands import Command\n\nclass Gamma(Command):\n    def execute(self, **kw):\n        return 'ulib_extra.Gamma'\n",
+    "ulib_extra.py": "from mpilot.commands import Command\n\nclass Gamma(Command):\n    def execute(self, **kw):\n        return 'ulib_extra.Gamma'\n\n"
+                     "class GammaTwin(Gamma):\n    \"\"\"the same computation under another name: execute() is inherited, not defined in the class body\"\"\"\n    display_name = 'Gamma twin'\n",
     "ulib2.py": "from mpilot.commands import Command\n\nclass Alpha(Command):\n    def execute(self, **kw):\n        return 'ulib2.Alpha'\n",
     "upkg/__init__.py": "from mpilot.commands import Command\n\nclass Eps(Command):\n    def execute(self, **kw):\n        return 'upkg.Eps'\n",
     "upkg/sub.py": "from mpilot.commands import Command\n\nclass Delta(Command):\n    def execute(self, **kw):\n        return 'upkg.sub.Delta'\n\n"
@@ -74,7 +75,7 @@ def _known():
             k.append((E + ".csv.io", name))
         for name in SIG.NETCDF_IO:
             k.append((E + ".netcdf.io", name))
-        k += [("ulib", "Alpha"), ("ulib", "Beta"), ("ulib_extra", "Gamma"), ("ulib2", "Alpha"), ("upkg", "Eps"), ("upkg.sub", "Delta"), ("upkg.sub", "Add"), ("upkgx", "Zeta"), ("upkg2.deep", "Theta")]
+        k += [("ulib", "Alpha"), ("ulib", "Beta"), ("ulib_extra", "Gamma"), ("ulib_extra", "GammaTwin"), ("ulib2", "Alpha"), ("upkg", "Eps"), ("upkg.sub", "Delta"), ("upkg.sub", "Add"), ("upkgx", "Zeta"), ("upkg2.deep", "Theta")]
         KNOWN = k
     return KNOWN
 
@@ -100,6 +101,9 @@ def reference(t, hist=()):
     return ("ok", tuple(sorted((n, next(iter(m))) for n, m in found.items())))
 
 
+_WD = [None]
+
+
 def prepare(tier):
     import numpy  # noqa: F401  (pre-import heavy third-party modules once; they are not MPilot libraries)
     try:
@@ -118,6 +122,13 @@ def prepare(tier):
         os.makedirs(os.path.dirname(path), exist_ok=True)
         with open(path, "w") as f:
             f.write(src)
+    # two model folders that each hold their own module of the same name (NOT on sys.path): what a program over one of them can use must not
+    # depend on a program over the other having been constructed before
+    for which in ("A", "B"):
+        os.makedirs(os.path.join(d, "_wd", which), exist_ok=True)
+        with open(os.path.join(d, "_wd", which, "wdlib.py"), "w") as f:
+            f.write("from mpilot.commands import Command\n\nclass Score(Command):\n    def execute(self, **kw):\n        return 'wdlib of %s'\n" % which)
+    _WD[0] = os.path.join(d, "_wd")
     sys.path.insert(0, d)
     loaded = [m for m in sys.modules if m.startswith("mpilot.libraries.") or m.split(".")[0] in ("ulib", "ulib_extra", "ulib2", "upkg", "upkgx", "upkg2")]
     if loaded:
@@ -176,6 +187,12 @@ def cases(tier):
         for first in [[], [("program", (L,))], [("program", (L,)), ("program", (L,))], [("import", module)], [("import", module), ("program", (L,))],
                       [("program", (L,)), ("import", module)]]:
             yield (first, ("add", (L, module, clsname)))
+    # programs with a WORKING DIRECTORY that holds a module of its own: the outcome of every construction equals its outcome in a fresh process
+    wd_events = [("program-wd", ("A", "wdlib")), ("program-wd", ("B", "wdlib")), ("program-wd", ("A", "ulib")), ("program-wd", ("B", "ulib", "wdlib"))]
+    for lastev in wd_events + [("program", ("wdlib",)), ("program", ("ulib",))]:
+        for h in [[]] + [[e] for e in wd_events] + [[wd_events[0], wd_events[1]], [wd_events[1], wd_events[0]], [("program", ("ulib",)), wd_events[0]]]:
+            if lastev[0] == "program-wd" or any(e[0] == "program-wd" for e in h):
+                yield (h, lastev)
     if tier == "thorough":
         small = [E + ".basic", E + ".csv", "ulib", "ulib_extra", "ulib2", "upkg"]
         evs = _events(small, 1) + [("program", t) for t in itertools.permutations(small, 2) if t[0].startswith("u") or t[1].startswith("u")]
@@ -206,6 +223,18 @@ def _do(ev):
         except Exception as exc:
             return ("raised", type(exc).__name__, str(exc)[:100])
         return ("ok", tuple(sorted((n, c.__module__) for n, c in p.command_library.items())))
+    if kind == "program-wd":
+        import inspect
+        from mpilot.program import Program
+
+        try:
+            p = Program(libraries=tuple(ev[1][1:]), working_dir=os.path.join(_WD[0], ev[1][0]))
+        except MPilotError as exc:
+            return ("error", tuple(sorted(x.strip() for x in str(exc).split(":")[-1].split(","))))
+        except Exception as exc:
+            return ("raised", type(exc).__name__)
+        return ("ok", tuple(sorted((n, c.__module__ + ("@" + os.path.basename(os.path.dirname(inspect.getfile(c))) if c.__module__ == "wdlib" else ""))
+                                   for n, c in p.command_library.items())))
     if kind == "import":
         __import__(ev[1])
         return None
@@ -307,6 +336,15 @@ def run(case):
                            "add_command(%s.%s) on Program((%r,)) after %r: %r" % (last[1][1], last[1][2], last[1][0], hist, got), **tag))
         return {"evals": len(hist) + 1, "nontrivial": 1, "judged": 1, "states": 1, "transitions": len(hist) + 1, "viols": viols,
                 "outcomes": {"add:%s" % got[0]: 1}, "sample": dict(tag, observed=got[0])}
+    if last[0] == "program-wd" or any(e[0] == "program-wd" for e in hist):
+        got = _in_child(hist, last)
+        alone = _in_child([], last)
+        tag = {"history": [list(map(str, e)) for e in hist], "probe": list(map(str, last))}
+        viols = []
+        if got != alone:
+            viols.append(V("C19:lookup:depends-on-history:working-directory", "%r after %r gives %r, in a fresh process %r" % (last, hist, got, alone), **tag))
+        return {"evals": len(hist) + 2, "nontrivial": 1, "judged": 1, "states": 1, "transitions": len(hist) + 2, "viols": viols,
+                "outcomes": {"wd:%s:%s" % (alone[0], "same" if got == alone else "differs"): 1}, "sample": dict(tag, observed=got[0])}
     priv = None
     if any(lib in ev[1] for ev in hist + [last] if ev[0] == "program" for lib in FLAKY) or any(ev in hist for ev in FLAKY.values()):
         priv = snapshot.scratch_dir("c19p_")  # private to this history: the events write into it
